@@ -13,7 +13,7 @@ use crate::report::Report;
 use crate::rng::Rng;
 use crate::world::*;
 
-const W: usize = 1; // the wallet owner
+const W: usize = 1; // the wallet owner (actor 0, the block producer, in the staking scenarios)
 
 struct Sc {
     b: Builder,
@@ -25,6 +25,11 @@ struct Sc {
     outbox: Vec<Transaction>,
     reorged: bool,
     trace: Vec<String>,
+    /// index of the wallet owner among the actors
+    w: usize,
+    /// a light client's wallet for the same key: it sees every block as the lite block served
+    /// for its key, after the wire (linear scenarios without staking)
+    light: Option<saito_core::core::consensus::wallet::Wallet>,
 }
 
 fn ledger_slips(ledger: &RefLedger, pk: &PK, gp: u64) -> BTreeSet<[u8; 59]> {
@@ -61,7 +66,7 @@ async fn check_wallet(sc: &mut Sc, rep: &mut Report, after: &str) -> bool {
     // E2: on chains without reorganisation the unspent list is the ledger's view minus own commitments
     if !sc.reorged {
         let ledger = sc.b.store.ledger(&sc.tip);
-        let mut expect = ledger_slips(&ledger, &sc.b.actors[W].pk, gp);
+        let mut expect = ledger_slips(&ledger, &sc.b.actors[sc.w].pk, gp);
         for k in sc.committed.iter() {
             expect.remove(k);
         }
@@ -78,6 +83,70 @@ async fn check_wallet(sc: &mut Sc, rep: &mut Report, after: &str) -> bool {
             return false;
         }
         rep.count("ledger_comparisons");
+    }
+    true
+}
+
+/// what a light client does with a block: the lite block for its key, across the wire, wound into
+/// its wallet
+fn light_wind(lw: &mut saito_core::core::consensus::wallet::Wallet, full: &saito_core::core::consensus::block::Block, pk: &PK, gp: u64) -> Vec<u32> {
+    use saito_core::core::consensus::block::{Block, BlockType};
+    use saito_core::core::consensus::transaction::TransactionType;
+    let mut full = full.clone();
+    let _ = full.generate();
+    let lite = full.generate_lite_block(vec![*pk]);
+    let mut got = Block::deserialize_from_net(&lite.serialize_for_net(BlockType::Full)).expect("lite block decodes");
+    let _ = got.generate();
+    lw.on_chain_reorganization(&got, true, gp);
+    got.transactions.iter().filter(|t| t.transaction_type == TransactionType::SPV).map(|t| t.txs_replacements).collect()
+}
+
+/// the light wallet lists exactly the ledger's spendable in-window outputs of its key (it builds
+/// nothing itself, so nothing is committed), and a payment it would build is valid on the ledger
+fn check_light(sc: &mut Sc, rep: &mut Report, h: &Hash) -> bool {
+    use saito_core::core::consensus::transaction::Transaction;
+    let gp = sc.b.params.gp;
+    let pk = sc.b.actors[sc.w].pk;
+    let full = sc.b.store.get(h).block.clone();
+    let lw = sc.light.as_mut().unwrap();
+    let placeholders = light_wind(lw, &full, &pk, gp);
+    rep.count("light_wallet_blocks");
+    if placeholders.iter().any(|r| *r > 1) {
+        rep.count("light_wallet_blocks_with_merged_placeholders");
+    } else if !placeholders.is_empty() {
+        rep.count("light_wallet_blocks_with_placeholders");
+    }
+    let ledger = sc.b.store.ledger(h);
+    let expect = ledger_slips(&ledger, &pk, gp);
+    let got: BTreeSet<[u8; 59]> = lw.unspent_slips.iter().cloned().collect();
+    let witness = json!({"kind":"wallet-ops","trace": sc.trace, "block_hex": hex::encode(block_bytes(&full)), "placeholders": placeholders});
+    if got != expect {
+        let describe = |k: &[u8; 59]| format!("{}-{}-{} amount {}", u64::from_be_bytes(k[33..41].try_into().unwrap()), u64::from_be_bytes(k[41..49].try_into().unwrap()), k[49], u64::from_be_bytes(k[50..58].try_into().unwrap()));
+        let extra: Vec<String> = got.difference(&expect).take(3).map(|k| describe(k)).collect();
+        let lacking: Vec<String> = expect.difference(&got).take(3).map(|k| describe(k)).collect();
+        rep.violation(
+            "C19|clause=light-wallet-unspent-list-differs-from-ledger",
+            &format!("after block {} received as a lite block (placeholders {:?}) the light client's wallet lists {} unspent outputs, the ledger has {} for its key; only in the wallet: {:?}; only in the ledger: {:?}", full.id, placeholders, got.len(), expect.len(), extra, lacking),
+            witness,
+        );
+        return false;
+    }
+    rep.count("light_wallet_ledger_comparisons");
+    // a payment built from a copy of the light wallet
+    let balance = lw.get_available_balance();
+    if balance > 10 {
+        let mut copy = lw.clone();
+        let to = sc.b.actors[2].pk;
+        if let Ok(Ok(mut tx)) = crate::panics::catch(|| Transaction::create(&mut copy, to, balance / 2, 1, false, None, full.id, gp)) {
+            tx.generate(&pk, 0, 0);
+            tx.sign(&sc.b.actors[sc.w].sk);
+            tx.generate(&pk, 0, 0);
+            rep.count("light_wallet_built_txs");
+            if let Some(why) = ref_invalid(&tx, &ledger, gp, full.id + 1) {
+                rep.violation(&format!("C19|clause=light-wallet-built-tx-invalid|why={}", why), &format!("a payment built by the light client's wallet after block {} is invalid on the ledger: {}", full.id, why), witness);
+                return false;
+            }
+        }
     }
     true
 }
@@ -104,9 +173,9 @@ async fn build_spend(sc: &mut Sc, rng: &mut Rng, rep: &mut Report) -> bool {
         let r = crate::panics::catch(|| Transaction::create(&mut w, to, amount, fee, false, None, latest, gp));
         match r {
             Ok(Ok(mut tx)) => {
-                tx.generate(&sc.b.actors[W].pk, 0, 0);
-                tx.sign(&sc.b.actors[W].sk);
-                tx.generate(&sc.b.actors[W].pk, 0, 0);
+                tx.generate(&sc.b.actors[sc.w].pk, 0, 0);
+                tx.sign(&sc.b.actors[sc.w].sk);
+                tx.generate(&sc.b.actors[sc.w].pk, 0, 0);
                 Some(tx)
             }
             Ok(Err(_)) => None,
@@ -117,6 +186,9 @@ async fn build_spend(sc: &mut Sc, rng: &mut Rng, rep: &mut Report) -> bool {
         }
     };
     rep.count(&format!("builds.{}", label));
+    if let Some(t) = &built {
+        rep.max("built_tx_inputs", t.from.len() as u64);
+    }
     let tx = match built {
         Some(t) => t,
         None => {
@@ -193,17 +265,34 @@ async fn next_block(sc: &mut Sc, rng: &mut Rng, rep: &mut Report, parent: Hash, 
         let from = [0usize, 2, 3, 4][rng.below(4) as usize];
         let amount = 1_000 + rng.below(200_000);
         let fee = 50 + rng.below(500);
-        if let Some(t) = sc.b.payment(rng, &parent, from, W, amount, fee, &mut exclude) {
+        if let Some(t) = sc.b.payment(rng, &parent, from, sc.w, amount, fee, &mut exclude) {
             txs.push(t);
             rep.count("incoming_payments");
+        }
+    }
+    // traffic that does not touch the wallet (what a lite block replaces by placeholders)
+    for _ in 0..rng.below(5) {
+        let from = [2usize, 3, 4][rng.below(3) as usize];
+        let to = [2usize, 3, 4][rng.below(3) as usize];
+        if from != sc.w && to != sc.w {
+            let (amount, fee) = (500 + rng.below(5_000), 20 + rng.below(100));
+            if let Some(t) = sc.b.payment(rng, &parent, from, to, amount, fee, &mut exclude) {
+                txs.push(t);
+                rep.count("unrelated_payments");
+            }
         }
     }
     if txs.is_empty() {
         txs.push(build_tx(&sc.b.actors[3], &[], &[], sc.b.store.get(&parent).ts + 2, b"noop"));
     }
+    // (position of the wallet's transactions among the others varies)
+    for i in (1..txs.len()).rev() {
+        let j = rng.below(i as u64 + 1) as usize;
+        txs.swap(i, j);
+    }
     let id = sc.b.store.get(&parent).id + 1;
     let with_gt = !density_ok(&sc.b, &parent, false) || id % 2 == 0;
-    let spec = BlockSpec { gap: 2 * hb + rng.below(3000), txs, with_gt, gt_miner: [0usize, W, 2][rng.below(3) as usize] };
+    let spec = BlockSpec { gap: 2 * hb + rng.below(3000), txs, with_gt, gt_miner: [0usize, sc.w, 2][rng.below(3) as usize] };
     let _ = n;
     match sc.b.extend(rng, &parent, &spec).await {
         Ok(h) => Some(h),
@@ -215,17 +304,74 @@ async fn next_block(sc: &mut Sc, rng: &mut Rng, rep: &mut Report, parent: Hash, 
     }
 }
 
-async fn scenario(rng: &mut Rng, rep: &mut Report, with_reorgs: bool, gp: u64, steps: usize) {
+async fn scenario(rng: &mut Rng, rep: &mut Report, with_reorgs: bool, gp: u64, steps: usize, staking: bool, fragmented: bool) {
     let n = 5;
-    let params = Params::with_gp(gp);
-    let b = Builder::new(&params, n, &default_issuance(n)).await;
-    let mut node = LNode::new(&b.actors[W], &params);
+    let mut params = Params::with_gp(gp);
+    let w = if staking { 0 } else { W };
+    if staking {
+        // the wallet owner produces the blocks and stakes: its wallet holds stake outputs that are
+        // part of neither the unspent list nor what generate_slips can select
+        params.stake = 2_000_000;
+        params.stake_period = 3;
+        rep.count("scenarios.staking-producer");
+    }
+    let issuance = default_issuance(n);
+    let b = Builder::new(&params, n, &issuance).await;
+    let mut node = LNode::new(&b.actors[w], &params);
     node.add_bytes(&b.store.get(&b.genesis).bytes.clone()).await;
     let tip = b.genesis;
-    let mut sc = Sc { b, node, tip, committed: BTreeSet::new(), outbox: vec![], reorged: false, trace: vec![] };
+    let light = if !with_reorgs && !staking {
+        let mut lw = saito_core::core::consensus::wallet::Wallet::new(b.actors[w].sk, b.actors[w].pk);
+        let g = b.store.get(&b.genesis).block.clone();
+        light_wind(&mut lw, &g, &b.actors[w].pk, gp);
+        Some(lw)
+    } else {
+        None
+    };
+    let mut sc = Sc { b, node, tip, committed: BTreeSet::new(), outbox: vec![], reorged: false, trace: vec![], w, light };
     rep.count(if with_reorgs { "scenarios.with-reorgs" } else { "scenarios.linear" });
     if !check_wallet(&mut sc, rep, "genesis").await {
         return;
+    }
+    if fragmented {
+        // a wallet made of several hundred small outputs (two payments of 150 outputs each): paying
+        // most of the balance needs more inputs than a transaction can carry (255)
+        rep.count("scenarios.fragmented-wallet");
+        for payer in [2usize, 3] {
+            let parent = sc.tip;
+            let ledger = sc.b.store.ledger(&parent);
+            let a = sc.b.actors[payer].clone();
+            let big = match ledger.safe_owned_by(&a.pk, gp).into_iter().max_by_key(|o| o.amount) {
+                Some(o) => o,
+                None => return,
+            };
+            let mut outs: Vec<(PK, u64)> = (0..150u64).map(|j| (sc.b.actors[w].pk, 1_000 + j)).collect();
+            let used: u64 = outs.iter().map(|(_, x)| *x).sum();
+            if big.amount <= used + 100 {
+                return;
+            }
+            outs.push((a.pk, big.amount - used - 100));
+            let tx = build_tx(&a, &[big.clone()], &outs, sc.b.store.get(&parent).ts + 3, &[]);
+            let id = sc.b.store.get(&parent).id + 1;
+            let with_gt = !density_ok(&sc.b, &parent, false) || id % 2 == 0;
+            let spec = BlockSpec { gap: 2 * sc.b.params.heartbeat, txs: vec![tx], with_gt, gt_miner: 2 };
+            let h = match sc.b.extend(rng, &parent, &spec).await {
+                Ok(h) => h,
+                Err(_) => return,
+            };
+            let bytes = sc.b.store.get(&h).bytes.clone();
+            if sc.node.add_bytes(&bytes).await != Some(Added::Ok(true)) {
+                return;
+            }
+            sc.tip = h;
+            sc.trace.push(format!("fragment-block{}", id));
+            if !check_wallet(&mut sc, rep, "block").await {
+                return;
+            }
+            if sc.light.is_some() && !check_light(&mut sc, rep, &h) {
+                return;
+            }
+        }
     }
     for step in 0..steps {
         let op = rng.below(10);
@@ -268,6 +414,9 @@ async fn scenario(rng: &mut Rng, rep: &mut Report, with_reorgs: bool, gp: u64, s
             sc.trace.push(format!("block{}", id));
             rep.count("blocks");
             if !check_wallet(&mut sc, rep, "block").await {
+                return;
+            }
+            if sc.light.is_some() && !check_light(&mut sc, rep, &h) {
                 return;
             }
         } else {
@@ -313,6 +462,8 @@ pub async fn run(ctx: &Ctx, rep: &mut Report) {
     for r in 0..rounds {
         let gp = [4u64, 6, 10, 40][(r % 4) as usize];
         let with_reorgs = r % 3 == 2;
-        scenario(&mut rng, rep, with_reorgs, gp, 50).await;
+        let staking = r % 6 == 4;
+        let fragmented = r % 8 == 3;
+        scenario(&mut rng, rep, with_reorgs, if staking { gp.max(10) } else { gp }, if fragmented { 16 } else { 50 }, staking, fragmented).await;
     }
 }
